@@ -27,7 +27,8 @@ func init() {
 func c11Run(rc *simrt.RunCtx) {
 	pr := newPrng(rc.Seed())
 	installEphemeralGen(pr)
-	rl := newRelay(rc, relayFaults{latMin: time.Millisecond, latMax: time.Duration(2+rc.Pick(20, "relay.latmax")) * time.Millisecond})
+	rl := newRelay(rc, relayFaults{latMin: time.Millisecond, latMax: time.Duration(2+rc.Pick(20, "relay.latmax")) * time.Millisecond,
+		asyncSend: []time.Duration{0, time.Millisecond, 5 * time.Millisecond}[rc.Pick(3, "relay.k.async-send")]})
 	maxV := byte(2)
 	maxVC, maxVS := byte(2), byte(2)
 	// (the responder always answers with its own maximum version, so an
